@@ -876,6 +876,41 @@ func c20Mutate(r *rand.Rand, s string) string {
 	return string(b)
 }
 
+// c20DamageParam damages ONE parameter of a grammatical challenge list the way a buggy server
+// (or a truncating intermediary) does - the family of lean/Req/Props/C20Malformed.lean
+// (bad_param_errors, unterminated_quote_is_error_e2e, meaningless_refused): a quoted-string that is
+// never closed (it swallows the rest of the list), something after a closing quote, a missing comma
+// between two parameters, a parameter without value, the same (unknown) name twice in a challenge,
+// a parameter in front of the first scheme. The verdict stays the model's.
+func c20DamageParam(r *rand.Rand, s string) (string, string) {
+	quotes := []int{}
+	for i := 0; i < len(s); i++ {
+		if s[i] == '"' && (i == 0 || s[i-1] != '\\') {
+			quotes = append(quotes, i)
+		}
+	}
+	switch way := r.Intn(6); {
+	case way == 0 && len(quotes) > 0:
+		i := quotes[len(quotes)-1-2*r.Intn((len(quotes)+1)/2)] // a closing quote (when the text is grammatical)
+		return s[:i] + s[i+1:], "unterminated-quote"
+	case way == 1 && len(quotes) > 1:
+		i := quotes[1+2*r.Intn(len(quotes)/2)]
+		return s[:i+1] + verifh.Pick(r, []string{"x", " y", "\"z\"", "=", " nonce=\"n2\""}) + s[i+1:], "junk-after-quote"
+	case way == 2:
+		if i := strings.Index(s, "\","); i >= 0 {
+			return s[:i+1] + " " + s[i+2:], "missing-comma"
+		}
+		if i := strings.LastIndex(s, ","); i >= 0 {
+			return s[:i] + " " + s[i+1:], "missing-comma"
+		}
+	case way == 3:
+		return s + verifh.Pick(r, []string{", extra=", ",opaque=", ", x =", ", nonce= "}), "empty-value"
+	case way == 4:
+		return s + ", zz=1, ZZ=\"2\"", "duplicate-name"
+	}
+	return verifh.Pick(r, []string{"realm=\"x\", ", "nonce=n,", "a=b, "}) + s, "param-before-scheme"
+}
+
 var c20Junk = []string{"", "Digest", "Digest ", "Digest  ", "Basic realm=\"x\"", "Bearer", "Negotiate", "NTLM", "digest realm=\"x\", nonce=\"y\"",
 	"Digest realm", "Digest =", "Digest ,", "Digest realm=\"x\",", "Digest ,realm=\"x\"", "Digest realm=\"x\" nonce=\"y\"", "Digestrealm=\"x\"",
 	"Basic realm=\"x\", Digest realm=\"y\", nonce=\"z\"", "Digest realm=\"x\", nonce=\"y\", Basic realm=\"z\"", "Digest\trealm=\"x\"",
